@@ -6,11 +6,12 @@ import shutil
 from concurrent.futures import ThreadPoolExecutor
 
 import lib
-from lib import esc, unesc, esc_list
+from lib import esc, unesc, esc_list, unesc_list
 
 THEOREMS = ['C05.C05_rule_lines_untouched_complain', 'C05.C05_rule_lines_untouched_enforce',
             'C05.C05_complain_sets', 'C05.C05_enforce_unsets', 'C05.C05_complain_keeps_other_flags',
-            'C05.C05_enforce_keeps_other_flags', 'C05.C05_enforce_needs_nodup']
+            'C05.C05_enforce_keeps_other_flags', 'C05.C05_enforce_needs_nodup', 'C05.C05_complain_every_block',
+            'C05.C05_enforce_every_block']
 FLAGS = re.compile(r'flags=\(([^)]*)\)')
 HDR = re.compile(r'^\s*(profile\s|hat\s|\^)')
 
@@ -173,6 +174,68 @@ def run(ctx):
     if bad2:
         broken.append('correspondence: setflags differs from the model on %d of %d texts' % (len(bad2), len(sops)))
 
+    # ---- search: the real setflags task over a directory of profiles with BOTH manifests (common and per-distribution): a profile
+    # listed in both gets the distribution's flags, one listed in one gets those, the others keep their source flags.  Manifest
+    # entries carry trailing blanks, trailing comments, blank and comment lines; enough entries that an unstable order would show.
+    nm = 60 if ctx.tier == 'quick' else 1500
+    mops, mexp = [], []
+    for i in range(nm):
+        npf = rng.randint(3, 40)
+        names = ['p%02d' % j for j in range(npf)]
+        for j in rng.sample(range(npf), min(3, npf)):
+            names[j] = rng.choice(['netplan.script%d', 'landscape-sysinfo.wrapper%d', 'a-b_c%d', 'x11.%d.d']) % j
+        src = {n: (rng.sample(WORDS[:7], rng.randint(1, 2)) if rng.random() < 0.5 else []) for n in names}
+        heads = ['profile %s @{exec_path}%s {' % (n, ' flags=(%s)' % ','.join(src[n]) if src[n] else '') for n in names]
+
+        def manifest(entries):
+            out = []
+            for n, fl in entries:
+                if rng.random() < 0.15:
+                    out.append(rng.choice(['', '# a comment', '  # indented comment', '   ']))
+                line = n + (' ' + ','.join(fl) if fl else '')
+                line += rng.choice(['', '', ' ', '  ', '  # note', ' # complain'] if fl else ['', '  # note', ' # complain'])
+                out.append(line)
+            return '\n'.join(out) + '\n'
+        k1 = rng.randint(0, npf)
+        main_e = [(n, rng.sample(WORDS[:7], rng.randint(0, 3))) for n in rng.sample(names, k1)] + ([('ghost%d' % i, ['complain'])] if rng.random() < 0.3 else [])
+        rng.shuffle(main_e)
+        both = [n for n, _ in main_e if n in src]
+        k2 = rng.randint(0, min(8, npf))
+        dist_names = set(rng.sample(both, min(len(both), rng.randint(0, 4))) + rng.sample(names, k2))
+        dist_e = [(n, rng.sample(WORDS[:7], rng.randint(0, 3))) for n in sorted(dist_names)]
+        rng.shuffle(dist_e)
+        want = []
+        dm, dd = dict(main_e), dict(dist_e)
+        for n in names:
+            fl = src[n]
+            if dm.get(n):
+                fl = dm[n]
+            if dd.get(n):
+                fl = dd[n]
+            want.append(fl)
+        mops.append('%s\t%s\t%s\t%s' % (esc(manifest(main_e)), esc(manifest(dist_e)), esc_list(names), esc_list(heads)))
+        mexp.append((names, want))
+    mout = ctx.run_go('setflags2', mops)
+    nmf = 0
+    for op, o, (names, want) in zip(mops, mout, mexp):
+        if not o.startswith('ok\t'):
+            nmf += 1
+            if nmf <= 3:
+                ctx.violation('setflags with two manifests failed: %s' % o[:100], {'op': op, 'suite': 'setflags2', 'go': o})
+            continue
+        got = unesc_list(o[3:])
+        for n, w, h in zip(names, want, got):
+            m = re.search(r'flags=\(([^)]*)\)', h)
+            g = m.group(1).split(',') if m else []
+            if g != w or not h.startswith('profile %s @{exec_path} ' % n) or not h.endswith(' {'):
+                nmf += 1
+                if nmf <= 3:
+                    ctx.violation('setflags: profile %s gets the header %r, the manifests (distribution over common over source) give the flags %r' % (n, h, w),
+                                  {'op': op, 'suite': 'setflags2', 'profile': n, 'header': h, 'expected_flags': w})
+                break
+    ctx.cov['search']['two_manifests'] = {'directories': nm, 'failing': nmf}
+    ctx.cov['evaluations'] += nm
+
     # ---- search: real builders judged by the block spec, on WF texts ------------------------
     nwf = 0
     nfail = 0
@@ -268,7 +331,7 @@ def run(ctx):
 def replay(ctx, data):
     ctx.build_go()
     if 'op' in data:
-        print(ctx.run_go('builder', [data['op']])[0])
+        print(ctx.run_go(data.get('suite', 'builder'), [data['op']])[0])
     else:
         print(data)
     return 0
